@@ -444,7 +444,7 @@ def r02c(model, ctx):
               "memory write code must be emitted after the domain's statements", f"{PYRTL}:{g.lineno(wr[0])}")
 
     # ---- netlist side: reset assignment appended after statement assignments, before emit_value
-    fd = model.func(f"{IR}::NetlistEmitter.emit_drivers")
+    fd = model.func_expanded(f"{IR}::NetlistEmitter.emit_drivers", depth=3)
     gd = CFG(fd, inline_closures=False)
     app = gd.nodes_with(lambda n: isinstance(n, ast.Call) and unparse(n.func) == "driver.assignments.append")
     ev = gd.nodes_with(lambda n: isinstance(n, ast.Call) and unparse(n.func) == "driver.emit_value")
